@@ -631,6 +631,9 @@ func scnPathSel(rep *Report, rng *Rng, tier string, outdir string) {
 		}
 		d := &PNode{ID: id, Name: name, Fanout: []int{0, 0, 8, 16, 256, -1}[rng.Intn(6)]}
 		n := 1 + rng.Intn(6)
+		if rng.Intn(8) == 0 {
+			n = 0 // an empty directory (plain or sharded) is a directory too
+		}
 		perm := rng.Perm(len(names))
 		for i := 0; i < n; i++ {
 			d.Children = append(d.Children, gen(depth-1, names[perm[i]]))
@@ -680,7 +683,7 @@ func scnPathSel(rep *Report, rng *Rng, tier string, outdir string) {
 		for _, p := range paths {
 			all = append(all, p)
 			if p != "" && rng.Intn(2) == 0 {
-				alts := []string{p + "/", "/" + p, strings.ReplaceAll(p, "/", "//"), p + "x", p[:len(p)-1], p + "/nope", strings.ReplaceAll(p, " ", "%20"), strings.ReplaceAll(p, "a", "%61"), p[1:]}
+				alts := []string{p + "/", "/" + p, strings.ReplaceAll(p, "/", "//"), p + "x", p[:len(p)-1], p + "/nope", p + "/Links", p + "/Data", p + "/Links/0/Hash", strings.ReplaceAll(p, " ", "%20"), strings.ReplaceAll(p, "a", "%61"), p[1:]}
 				all = append(all, alts[rng.Intn(len(alts))])
 				// an integer in place of the last name (a list index is not a directory entry)
 				{
@@ -712,6 +715,22 @@ func scnPathSel(rep *Report, rng *Rng, tier string, outdir string) {
 					}
 					rep.Dist("C03", fmt.Sprintf("target=%d matchpath=%v", target, mp))
 				}
+			}
+		}
+	}
+	// empty directories of every kind as the terminus, and as something to walk through
+	{
+		tree := &PNode{ID: 1, Children: []*PNode{{ID: 2, Name: "none8", Fanout: 8}, {ID: 3, Name: "none256", Fanout: 256}, {ID: 4, Name: "plain", Fanout: 0}, {ID: 5, Name: "raw", Fanout: -1},
+			{ID: 6, Name: "f", File: true, Size: 7}, {ID: 7, Name: "sh", Fanout: 16, Children: []*PNode{{ID: 8, Name: "inner", Fanout: 16}}}}}
+		for _, p := range []string{"/none8", "/none256", "/plain", "/raw", "/sh/inner", "/none8/x", "/plain/Links", "/raw/0", "/f", ""} {
+			for target := 0; target < 4; target++ {
+				in := PathSelInput{Tree: tree, Path: p, Target: target}
+				runPathSelInput(rep, in, cf)
+				key, _ := json.Marshal([]interface{}{"empties", p, target})
+				for _, prop := range []string{"C03", "C05", "C06", "C20"} {
+					rep.Count(prop, string(key), true, map[string]interface{}{"path": p, "target": target})
+				}
+				rep.Dist("C03", "empty-directories")
 			}
 		}
 	}
